@@ -477,30 +477,7 @@ Proof.
   intros D d rho w o ps Hw Hrho Hcell H.
   destruct (compound_refines D d rho w o ps Hw Hrho Hcell H) as (l & Hl & Heq).
   assert (Hlam : 0 < wl_R w) by (apply (wl_R_pos EF_R_pos); exact Hw).
-  destruct Hcell as [Hne Hd].
-  assert (Hfacts : forall c, In c l -> 0 < c_n c /\ 0 < c_m c /\ c_im c <= 0 /\ 0 <= c_ss c).
-  { intros c Hin. destruct (all_some_in (tab_comp D w) d l Hl c Hin) as (p & Hp & Hc).
-    destruct (Hd p Hp) as (Hcnt & Hmass & Hok).
-    destruct (tab_comp_facts D w p c Hok Hc) as (E1 & E2 & E3 & E4).
-    rewrite E1, E2. repeat split; [apply Q2R_pos; exact Hcnt|apply Q2R_pos; exact Hmass|exact E3|exact E4]. }
-  assert (Hlne : l <> []).
-  { intro E. apply Hne. pose proof (all_some_length _ _ _ Hl) as Hlen. rewrite E in Hlen.
-    destruct d; [reflexivity|discriminate]. }
-  assert (Hn : 0 < n_total l).
-  { unfold n_total. apply sum_pos; [exact Hlne|]. intros c Hin. exact (proj1 (Hfacts c Hin)). }
-  assert (Hm : 0 < molar_mass l).
-  { unfold molar_mass. apply sum_pos; [exact Hlne|]. intros c Hin.
-    destruct (Hfacts c Hin) as (H1 & H2 & _). apply Rmult_lt_0_compat; assumption. }
-  assert (Hss : 0 <= sigma_s l).
-  { unfold sigma_s. apply Rmult_le_pos; [|left; apply Rinv_0_lt_compat; exact Hn].
-    clear -Hfacts. induction l as [|c r IH]; [simpl; lra|]. simpl.
-    destruct (Hfacts c (or_introl eq_refl)) as (H1 & _ & _ & H4).
-    assert (0 <= sum (fun c0 => c_n c0 * c_ss c0) r) by (apply IH; intros c0 Hin; apply Hfacts; right; exact Hin).
-    nra. }
-  assert (Him : b_im l <= 0).
-  { unfold b_im. unfold Rdiv. rewrite <- (Rmult_0_l (/ n_total l)).
-    apply Rmult_le_compat_r; [left; apply Rinv_0_lt_compat; exact Hn|].
-    apply sum_nonpos. intros c Hin. destruct (Hfacts c Hin) as (H1 & _ & H3 & _). nra. }
+  destruct (cell_facts D w d l Hcell Hl) as (Hn & Hm & _ & Hss & Him).
   assert (HN : 0 < number_density (Q2R NAq) l (Q2R rho)).
   { unfold number_density, cell_volume, A_per_cm. pose proof NA_pos. apply Q2R_pos in Hrho.
     apply Rdiv_lt_0_compat; [exact Hn|]. apply Rmult_lt_0_compat; [|lra]. apply Rmult_lt_0_compat.
